@@ -126,6 +126,47 @@ def c3_contract(lists):
     return probs
 
 
+def c3_vs_cpython(n=5, max_bases=3, budget_s=60):
+    """c3linear_merge driven the way Class._mro drives it, over every acyclic hierarchy of n classes (bases among earlier classes, <= max_bases,
+    ordered); CPython's type() is the oracle (None = rejected)."""
+    import time
+    t0 = time.time()
+    names = [f"K{i}" for i in range(n)]
+    choices = []
+    for i in range(n):
+        earlier = names[:i]
+        opts = [()]
+        for k in range(1, min(max_bases, len(earlier)) + 1):
+            opts += list(itertools.permutations(earlier, k))
+        choices.append(opts)
+    bad, count = [], 0
+    for combo in itertools.product(*choices):
+        if time.time() - t0 > budget_s:
+            break
+        bases = dict(zip(names, combo))
+        want = cpython_mro(names, bases)
+        got = {}
+        for nm in names:
+            try:
+                bl = list(bases[nm])
+                if any(got.get(b) is None for b in bl):
+                    got[nm] = None
+                    continue
+                got[nm] = [nm, *c3linear_merge(*[list(got[b]) for b in bl], bl)] if bl else [nm]
+            except ValueError:
+                got[nm] = None
+        count += 1
+        for nm in names:
+            w_ = None if want[nm] is None else [nm] + [x for x in want[nm]]
+            if got[nm] != w_:
+                src = "; ".join(f"class {k}({', '.join(bases[k])})" for k in names)
+                bad.append({"source": src, "problems": [f"MRO of {nm}: c3linear_merge gives {got[nm]}, CPython {w_}"], "signature": "c3-vs-cpython:" + src})
+                break
+        if len(bad) >= 3:
+            break
+    return count, bad
+
+
 def sweep(n, with_members, budget_s=200):
     import time
     t0 = time.time()
@@ -154,7 +195,9 @@ def sweep(n, with_members, budget_s=200):
             bad.append({"lists": ls, "problems": pr[:2], "signature": "c3:" + json.dumps(ls)})
             if len(bad) >= 8:
                 break
-    return {"hierarchies": count, "c3_inputs": c3n, "bad": bad}
+    n5, bad5 = c3_vs_cpython(5, 3, 60)
+    bad += bad5
+    return {"hierarchies": count, "c3_inputs": c3n + n5, "bad": bad}
 
 
 def replay_hierarchies(w, obligation, expects):
